@@ -364,16 +364,19 @@ def closure(unit, mask, known_xy, known_z, trace=None):
         return ch
 
     def hdists(K):
-        """{(P, K)} pairs with a usable horizontal distance between unknown P and known K"""
-        out = set()
+        """{(P, K): sources} pairs with a usable horizontal distance; sources:
+        'dist' observed, 'sdza' slope distance * sin(zenith angle), 'sdh' slope
+        distance reduced with the known heights of both ends"""
+        out = {}
+        def add(a, b, src):
+            out.setdefault((a, b), set()).add(src); out.setdefault((b, a), set()).add(src)
         for c in obs:
             if c[0] == "dist":
-                out.add((c[1], c[2])); out.add((c[2], c[1]))
+                add(c[1], c[2], "dist")
             elif c[0] == "sd":
-                ok = (c[1] in kz and c[2] in kz and unit.dim == 3)
+                if c[1] in kz and c[2] in kz and unit.dim == 3: add(c[1], c[2], "sdh")
                 for d in obs:
-                    if d[0] == "za" and d[1] == c[1] and d[2] == c[2]: ok = True
-                if ok: out.add((c[1], c[2])); out.add((c[2], c[1]))
+                    if d[0] == "za" and d[1] == c[1] and d[2] == c[2]: add(c[1], c[2], "sdza")
         return out
 
     def bearings(K):
@@ -410,12 +413,16 @@ def closure(unit, mask, known_xy, known_z, trace=None):
         B = [s for (s, p) in bearings(K) if p == P]
         HD = hdists(K)
         D = sorted(set(k for (p, k) in HD if p == P and k in K))
+        def tag(rule, ks):
+            # 'h': a slope distance reduced with known heights takes part (acordintersection.cpp:
+            # "slope distance reduced to horizontal if heights are available")
+            return rule + ("h" if any("sdh" in HD[(P, k)] for k in ks) else "")
         # X1 polar
         for s in B:
-            if s in D: return "X1"
+            if s in D: return tag("X1", [s])
         # azimuth from the computed point + distance (acordazimuth.cpp works both ways)
         for c in obs:
-            if c[0] == "azi" and c[1] == P and c[2] in K and c[2] in D: return "X1"
+            if c[0] == "azi" and c[1] == P and c[2] in K and c[2] in D: return tag("X1", [c[2]])
         # X2 two bearings
         for s1, s2 in itertools.combinations(sorted(set(B)), 2):
             if not collinear(coords[s1], coords[s2], coords[P]): return "X2"
@@ -438,7 +445,7 @@ def closure(unit, mask, known_xy, known_z, trace=None):
                 if k3 in (k1, k2): continue
                 d_true = math.hypot(coords[P][0] - coords[k3][0], coords[P][1] - coords[k3][1])
                 d_mir = math.hypot(m[0] - coords[k3][0], m[1] - coords[k3][1])
-                if abs(d_true - d_mir) > 10.0: return "X4"
+                if abs(d_true - d_mir) > 10.0: return tag("X4", [k1, k2, k3])
         return None
 
     def xy_pass(K, coords, targets):
